@@ -354,3 +354,184 @@ Proof.
   - destruct (Nat.eqb (length c) (oldlen + 1)) eqn:E1; [|rewrite Ef; reflexivity].
     apply Nat.eqb_eq in E1. rewrite <- Ef at 3. rewrite firstn_all2 by lia. reflexivity.
 Qed.
+
+(** ------------------------------------------------------------ lloadfilefd(3) with the in-place compaction *)
+Lemma lloadfile3_arr_spec (content : bytes) :
+  lloadfile3_arr content =
+  Ok (match list_spec content with None => LErr | Some es => LOk (length (cat es), cat es) end).
+Proof.
+  destruct content as [|c0 c']; [reflexivity|].
+  set (c := c0 :: c'). unfold lloadfile3_arr. fold c.
+  change (match c with [] => Ok (LOk (0, [])) | _ :: _ => ?x end) with x.
+  unfold LOADLIST_MODE. change (ll_scan (S (length c)) 3 [] c) with (scanm 3 [] c).
+  pose proof (scan_file 3 (S (length c)) c [] (Nat.lt_succ_diag_r _) eq_refl) as H.
+  rewrite <- list_spec_m_true. unfold list_spec_m. change (sb 3) with true in H.
+  destruct (all_some (map (line_tail_m true 0) (split_on is_eol c))) as [es0|]; cbn [option_map].
+  - destruct H as (img & Es & Ep & El). rewrite Es. cbn [bind rev app].
+    rewrite compact_buffer_spec.
+    + rewrite <- El, firstn_app, firstn_all, Nat.sub_diag. cbn [firstn]. rewrite app_nil_r, Ep. reflexivity.
+    + right. left. rewrite app_length. cbn [length]. lia.
+    + rewrite app_length. cbn [length]. lia.
+  - rewrite H. reflexivity.
+Qed.
+
+(** ------------------------------------------------------------ the counting loop with a callback *)
+Section Callback.
+  Variable cf : bytes -> bool.
+
+  Definition blank1 (e : bytes) : bytes := if cf e then repeat 0%N (length e) ++ [0%N] else e ++ [0%N].
+  Definition blank (es : list bytes) : bytes := concat (map blank1 es).
+  Definition keep (es : list bytes) : list bytes := filter (fun e => negb (cf e)) es.
+
+  Lemma cstring_at_spec (pre e rest : bytes) :
+    Forall (fun b => b <> 0%N) e -> cstring_at (pre ++ e ++ 0%N :: rest) (length pre) = Ok e.
+  Proof.
+    intros He. unfold cstring_at. rewrite strlen_at_spec by (auto; rewrite !app_length; cbn [length]; lia).
+    cbn [bind]. rewrite skipn_app, skipn_all, Nat.sub_diag. cbn [skipn app].
+    rewrite firstn_app, firstn_all, Nat.sub_diag. cbn [firstn]. now rewrite app_nil_r.
+  Qed.
+
+  Lemma count_loop_spec : forall (es : list bytes) (pre : bytes) (j : nat) (haserr : bool) (fuel : nat),
+    Forall entry_ok es -> length es < fuel ->
+    count_loop fuel cf (pre ++ cat es) (length pre) (length pre + length (cat es) - 1) j haserr =
+    Ok (pre ++ blank es, j + length (keep es), haserr || existsb cf es).
+  Proof.
+    induction es as [|e es IH]; intros pre j haserr fuel Hok Hf.
+    - destruct fuel; [lia|]. cbn [count_loop]. change (cat []) with (@nil N). cbn [length].
+      replace (Nat.ltb (length pre) (length pre + 0 - 1)) with false by (symmetry; apply Nat.ltb_ge; lia).
+      unfold blank, keep. cbn. rewrite !app_nil_r, Nat.add_0_r, orb_false_r. reflexivity.
+    - destruct fuel as [|fuel]; [cbn in Hf; lia|].
+      inversion Hok as [|? ? [Hne Hnz] Hoks]; subst.
+      assert (Hl : 1 <= length e) by (destruct e; [congruence|cbn; lia]).
+      rewrite cat_cons. cbn [count_loop].
+      set (a := pre ++ e ++ 0%N :: cat es).
+      replace (Nat.ltb (length pre) (length pre + length (e ++ 0%N :: cat es) - 1)) with true
+        by (symmetry; apply Nat.ltb_lt; rewrite app_length; cbn [length]; lia).
+      unfold a at 1. rewrite cstring_at_spec by assumption. cbn [bind].
+      assert (Hsl : strlen_at (S (length a)) a (length pre) = Ok (length e)).
+      { unfold a. apply strlen_at_spec; [assumption|]. rewrite !app_length. cbn [length]. lia. }
+      rewrite Hsl. cbn [bind].
+      unfold blank, keep. cbn [map concat filter existsb]. unfold blank1 at 1.
+      destruct (cf e) eqn:Ecf; cbn [negb].
+      + (* rejected: wipe it *)
+        unfold memset0_at. unfold a at 1 2 3.
+        replace (Nat.leb (length pre + length e) (length (pre ++ e ++ 0%N :: cat es))) with true
+          by (symmetry; apply Nat.leb_le; rewrite !app_length; cbn [length]; lia).
+        cbn [bind].
+        rewrite firstn_app, firstn_all, Nat.sub_diag. cbn [firstn]. rewrite app_nil_r.
+        rewrite skipn_app, skipn_all2 by lia. cbn [app].
+        replace (length pre + length e - length pre) with (length e) by lia.
+        rewrite skipn_app, skipn_all, Nat.sub_diag. cbn [skipn app].
+        set (a1 := pre ++ repeat 0%N (length e) ++ 0%N :: cat es).
+        assert (Hs2 : strlen_at (S (length a1)) a1 (length pre + length e) = Ok 0).
+        { unfold a1. replace (pre ++ repeat 0%N (length e) ++ 0%N :: cat es) with ((pre ++ repeat 0%N (length e)) ++ [] ++ 0%N :: cat es)
+            by (now rewrite <- app_assoc).
+          replace (length pre + length e) with (length (pre ++ repeat 0%N (length e))) by (rewrite app_length, repeat_length; lia).
+          apply strlen_at_spec; [constructor|cbn [length]; lia]. }
+        rewrite Hs2. cbn [bind].
+        replace a1 with ((pre ++ repeat 0%N (length e) ++ [0%N]) ++ cat es) by (unfold a1; now rewrite <- !app_assoc).
+        replace (length pre + length e + 0 + 1) with (length (pre ++ repeat 0%N (length e) ++ [0%N]))
+          by (rewrite !app_length, repeat_length; cbn [length]; lia).
+        replace (length pre + length (e ++ 0%N :: cat es) - 1)
+          with (length (pre ++ repeat 0%N (length e) ++ [0%N]) + length (cat es) - 1)
+          by (rewrite !app_length, repeat_length; cbn [length]; lia).
+        rewrite IH by (auto; cbn in Hf; lia). rewrite <- !app_assoc, orb_true_r. cbn [orb]. reflexivity.
+      + (* accepted *)
+        replace a with ((pre ++ e ++ [0%N]) ++ cat es) by (unfold a; now rewrite <- !app_assoc).
+        replace (length pre + length e + 1) with (length (pre ++ e ++ [0%N])) by (rewrite !app_length; cbn [length]; lia).
+        replace (length pre + length (e ++ 0%N :: cat es) - 1) with (length (pre ++ e ++ [0%N]) + length (cat es) - 1)
+          by (rewrite !app_length; cbn [length]; lia).
+        rewrite IH by (auto; cbn in Hf; lia). cbn [length orb]. rewrite <- !app_assoc.
+        unfold blank, keep. rewrite <- plus_n_Sm. reflexivity.
+  Qed.
+
+  Lemma pieces_blank (es : list bytes) : Forall entry_ok es -> pieces (blank es) = keep es.
+  Proof.
+    induction 1 as [|e es [Hne Hnz] _ IH]; [reflexivity|].
+    unfold blank, keep. cbn [map concat filter]. unfold blank1 at 1. fold (blank es) (keep es).
+    destruct (cf e); cbn [negb].
+    - rewrite <- app_assoc. cbn [app]. rewrite repeat_snoc.
+      change (0%N :: repeat 0%N (length e) ++ blank es) with ([] ++ 0%N :: (repeat 0%N (length e) ++ blank es)).
+      rewrite pieces_app by constructor. cbn [one is_nil app]. rewrite pieces_zeros. exact IH.
+    - rewrite <- app_assoc. cbn [app]. rewrite pieces_app by (now apply nonul_is_nul).
+      unfold one. destruct e; [congruence|]. cbn [is_nil app]. now rewrite IH.
+  Qed.
+
+  Lemma blank_all_kept (es : list bytes) : existsb cf es = false -> blank es = cat es /\ keep es = es.
+  Proof.
+    induction es as [|e es IH]; intros H; [split; reflexivity|].
+    cbn [existsb] in H. apply orb_false_iff in H as [He Hes]. destruct (IH Hes) as [E1 E2].
+    unfold blank, keep, cat in *. cbn [map concat filter]. unfold blank1 at 1. rewrite He. cbn [negb].
+    rewrite E1, E2. split; reflexivity.
+  Qed.
+
+  Lemma blank_length (es : list bytes) : length (blank es) = length (cat es).
+  Proof.
+    induction es as [|e es IH]; [reflexivity|]. unfold blank, cat in *. cbn [map concat]. unfold blank1 at 1.
+    destruct (cf e); rewrite !app_length, ?repeat_length, IH; reflexivity.
+  Qed.
+
+  Lemma blank_ends_nul (es : list bytes) : es <> [] -> exists r0, blank es = r0 ++ [0%N].
+  Proof.
+    induction es as [|e es IH]; [congruence|]. intros _. unfold blank in *. cbn [map concat].
+    destruct es as [|e2 es'].
+    - cbn [map concat]. rewrite app_nil_r. unfold blank1. destruct (cf e); eexists; reflexivity.
+    - destruct (IH ltac:(discriminate)) as [r0 E]. rewrite E. exists (blank1 e ++ r0). now rewrite app_assoc.
+  Qed.
+
+  Lemma keep_ok (es : list bytes) : Forall entry_ok es -> Forall entry_ok (keep es).
+  Proof. intros H. apply Forall_forall. intros e He. apply filter_In in He as [Hin _]. rewrite Forall_forall in H. auto. Qed.
+End Callback.
+
+(** ------------------------------------------------------------ data_array and the pointer loop *)
+Fixpoint offsets (p : nat) (es : list bytes) : list nat :=
+  match es with
+  | [] => []
+  | e :: r => p :: offsets (p + length e + 1) r
+  end.
+
+Lemma ptr_loop_spec : forall (es : list bytes) (P tail : bytes),
+  Forall entry_ok es ->
+  ptr_loop (length es) (P ++ cat es ++ tail) (length P) = Ok (map Some (offsets (length P) es)).
+Proof.
+  induction es as [|e es IH]; intros P tail Hok; [reflexivity|].
+  inversion Hok as [|? ? [Hne Hnz] Hoks]; subst.
+  cbn [length ptr_loop offsets map]. rewrite cat_cons, <- app_assoc. cbn [app].
+  rewrite strlen_at_spec by (auto; rewrite !app_length; cbn [length]; lia). cbn [bind].
+  replace (P ++ e ++ 0%N :: cat es ++ tail) with ((P ++ e ++ [0%N]) ++ cat es ++ tail) by (now rewrite <- !app_assoc).
+  replace (length P + length e + 1) with (length (P ++ e ++ [0%N])) by (rewrite !app_length; cbn [length]; lia).
+  rewrite IH by assumption. reflexivity.
+Qed.
+
+Lemma read_ptrs_spec : forall (es : list bytes) (P tail : bytes),
+  Forall entry_ok es ->
+  read_ptrs (P ++ cat es ++ tail) (map Some (offsets (length P) es) ++ [None]) = Ok (combine (offsets (length P) es) es).
+Proof.
+  induction es as [|e es IH]; intros P tail Hok; [reflexivity|].
+  inversion Hok as [|? ? [Hne Hnz] Hoks]; subst.
+  cbn [offsets map app read_ptrs combine]. rewrite cat_cons, <- app_assoc. cbn [app].
+  rewrite cstring_at_spec by assumption. cbn [bind].
+  replace (P ++ e ++ 0%N :: cat es ++ tail) with ((P ++ e ++ [0%N]) ++ cat es ++ tail) by (now rewrite <- !app_assoc).
+  replace (length P + length e + 1) with (length (P ++ e ++ [0%N])) by (rewrite !app_length; cbn [length]; lia).
+  rewrite IH by assumption. reflexivity.
+Qed.
+
+Lemma data_array_spec (fill : nat -> N) (j : nat) (buf : bytes) :
+  buf <> [] ->
+  exists P tail, length P = (j + 1) * PTR_SIZE /\ length tail = j /\
+    data_array fill j (length buf) buf (length buf) = Ok (P ++ buf ++ tail).
+Proof.
+  intros Hne. unfold data_array. set (psize := (j + 1) * PTR_SIZE). set (i := length buf).
+  assert (Hi : i <> 0) by (unfold i; destruct buf; [congruence|discriminate]).
+  apply Nat.eqb_neq in Hi. rewrite Hi.
+  rewrite firstn_all2 by (unfold i; lia).
+  set (junk := map fill (seq i (psize + (j + i) - i))).
+  assert (Hj : length junk = psize + j) by (unfold junk; rewrite map_length, seq_length; lia).
+  unfold memmove_at. rewrite app_length, Hj. fold i.
+  replace (Nat.leb (0 + i) (i + (psize + j))) with true by (symmetry; apply Nat.leb_le; lia).
+  replace (Nat.leb (psize + i) (i + (psize + j))) with true by (symmetry; apply Nat.leb_le; lia).
+  cbn [andb skipn].
+  exists (firstn psize (buf ++ junk)), (skipn (psize + i) (buf ++ junk)).
+  rewrite firstn_length, skipn_length, app_length, Hj. fold i. repeat split; try lia.
+  f_equal. f_equal. f_equal. unfold i. rewrite firstn_app, firstn_all, Nat.sub_diag. cbn [firstn]. now rewrite app_nil_r.
+Qed.
